@@ -645,13 +645,21 @@ def run_case(case):
                 if target is not active() and len(active().obj.queue) != before_active:
                     viol("context_content_wrong", {"kind": active().kind, "how": "apply_to_other_context", "diff": "extra"},
                          {"context_sid": active().sid})
-                if target is active():
-                    for attr in ("base", "obs"):
-                        b = getattr(obj, attr, None)
-                        if b is not None and isinstance(b, Operator):
-                            consume(b)
-                    for b in getattr(obj, "operands", ()) or ():
-                        consume(b)
+                # a wrapper queued into a context takes its operands out of THAT context (they are recorded
+                # only through the wrapper there), whether or not it is the active one
+                def _consume_in(frame, o):
+                    n0 = len(frame.items)
+                    frame.items = [sl for sl in frame.items
+                                   if not (sl.obj is o and not (sl.applied_from is not None and sl.obj is env.get(sl.applied_from)))]
+                    if len(frame.items) != n0:
+                        counters["consumed_operands"] += 1
+
+                for attr in ("base", "obs"):
+                    b = getattr(obj, attr, None)
+                    if b is not None and isinstance(b, Operator):
+                        _consume_in(target, b)
+                for b in getattr(obj, "operands", ()) or ():
+                    _consume_in(target, b)
                 env[s["id"]] = obj
                 target.items.append(_Slot(obj, s["id"], applied_from=s["arg"]))
             elif k == "raise":
